@@ -404,6 +404,21 @@ func runC14(r *core.Run) {
 		w.Begin("ret", c)
 		judgeRet(w, c)
 	})
+	// every status code 100..599 through every (int, …) shape, fast path and reflective
+	r.Parallel("status-sweep", 500, func(w *core.W, rng *rand.Rand, i int) {
+		for _, shape := range []string{"int,string", "int,bytes", "int,error"} {
+			for _, refl := range []bool{false, true} {
+				c := &retCase{Shape: shape, Int: 100 + i, Str: core.B([]string{"", "b"}[i%2]), Reflect: refl, Pos: i % 3, Method: []string{"GET", "HEAD", "POST"}[i%3]}
+				if shape == "int,error" && i%2 == 0 {
+					c.Err, c.ErrMsg = "new", "e"
+				}
+				w.Begin("ret", c)
+				w.Count("status-sweep")
+				judgeRet(w, c)
+			}
+		}
+	})
+	r.GateCounter("status-sweep", 3000)
 	for _, s := range retShapes {
 		if s == "*string" || s == "*bytes" {
 			r.GateCounter("class:"+s+"/pointer", 50)
